@@ -181,7 +181,9 @@ def check_C01(tier, seed):
         btree = bt.legs(v, "C01", readback=False,
                         mcs=[("e7", 7, [], 3, 3, {})],
                         gens=[("inc14", 15, bt.seed_inc(14), 3, 1, {}),
-                              ("bulk14", 15, bt.seed_bulk(14), 2, 1, {})])
+                              ("bulk14", 15, bt.seed_bulk(14), 2, 1, {}),
+                              # nested buckets touched next to merging leaves (their entries are rewritten at spill)
+                              ("nest14", 15, bt.seed_nested(14, (5, 10)), 3, 1, dict(kinds=("del", "touch", "delb", "mkb")))])
     else:
         btree = bt.legs(v, "C01", readback=False,
                         mcs=[("e8", 8, [], 3, 3, {}), ("inc14o4", 15, bt.seed_inc(14), 4, 1, {}),
@@ -191,7 +193,11 @@ def check_C01(tier, seed):
                               ("bulk14", 15, bt.seed_bulk(14), 3, 1, {}),
                               ("dec12", 13, bt.seed_dec(12), 2, 2, {}),
                               ("sparse", 15, bt.seed_sparse(14, [2, 3, 5, 9, 12]), 3, 1, {}),
-                              ("walk", 16, [], 4, 8, dict(simulate="num=3000", workers=1))])
+                              ("nest14", 15, bt.seed_nested(14, (5, 10)), 3, 1,
+                               dict(kinds=("del", "touch", "delb", "mkb", "put"))),
+                              ("nest14d4", 15, bt.seed_nested(14, (1, 7, 10, 14)), 4, 1, dict(kinds=("del", "touch"))),
+                              ("walk", 16, [], 4, 8, dict(simulate="num=3000", workers=1,
+                                                          kinds=("put", "del", "mkb", "touch", "delb")))])
     return finish_kv(v, tier, seed, mc, gs, tr, btree=btree, rule=
                      "spec->impl: every function Active -> PreKinds x Acts x Ends enumerated by TLC (Gen_KV), each "
                      "behaviour replayed under each profile and every result compared with KVOps!Do; impl->spec: "
@@ -481,16 +487,21 @@ def check_C05(tier, seed):
     l1_runs(v, runs, "C05", stats, scope=c05_scope)
     f1 = ("f1", 8, bt.seed_inc(5), 4, ["F1"], {})
     f13 = ("f13", 15, bt.seed_inc(14), 6, ["F13"], dict(kinds=("del",), opkeys=range(9, 15)))
+    f6 = ("f6", 15, bt.seed_nested(14, (5, 10)), 4, ["F6"], dict(kinds=("del", "touch"), opkeys=range(9, 15)))
+    nest = dict(kinds=("del", "touch", "put", "delb", "mkb"))
     if tier == "quick":
         btree = bt.legs(v, "C05", readback=False,
-                        mcs=[("inc14o3", 15, bt.seed_inc(14), 3, 1, {})], guards=[f1, f13],
+                        mcs=[("inc14o3", 15, bt.seed_inc(14), 3, 1, {}),
+                             ("nest14o3", 15, bt.seed_nested(14, (5, 10)), 3, 1, nest)], guards=[f1, f13, f6],
                         gens=[("sparse", 15, bt.seed_sparse(14, [2, 3, 5, 9, 12]), 3, 1, {}),
                               ("dec12", 13, bt.seed_dec(12), 3, 1, {})])
     else:
         btree = bt.legs(v, "C05", readback=False,
                         mcs=[("inc14o4", 15, bt.seed_inc(14), 4, 1, {}), ("e8", 8, [], 3, 3, {}),
                              ("inc9d7", 10, bt.seed_inc(9), 7, 1, dict(kinds=("del",))),
-                             ("inc14x2", 15, bt.seed_inc(14), 2, 2, {})], guards=[f1, f13],
+                             ("inc14x2", 15, bt.seed_inc(14), 2, 2, {}),
+                             ("nest14o4", 15, bt.seed_nested(14, (1, 5, 10, 14)), 4, 1, dict(kinds=("del", "touch", "delb"))),
+                             ("neste7", 7, [], 3, 3, nest)], guards=[f1, f13, f6],
                         gens=[("sparse", 15, bt.seed_sparse(14, [2, 3, 5, 9, 12]), 3, 2, dict(opkeys=range(1, 10))),
                               ("dec12", 13, bt.seed_dec(12), 2, 2, {}),
                               ("inc14d5", 15, bt.seed_inc(14), 5, 1, dict(kinds=("del",))),
@@ -1189,6 +1200,29 @@ def check_C15(tier, seed):
         "the legacy (SHA3-256) header"])
 
 
+def apalache_inductive(module, indinv, goal):
+    """Init => IndInv, IndInv /\\ Next => IndInv', IndInv => goal, discharged by Apalache (symbolic, no depth bound)"""
+    out_dir = os.path.join(scratch(), "apalache")
+    base = ["apalache-mc", "check", "--out-dir=" + out_dir, "--cinit=ConstInit"]
+    steps = [("Init => %s" % indinv, ["--inv=" + indinv, "--length=0"]),
+             ("%s /\\ Next => %s'" % (indinv, indinv), ["--init=IndInit", "--inv=" + indinv, "--length=1"]),
+             ("%s => %s" % (indinv, goal), ["--init=IndInit", "--inv=" + goal, "--length=0"])]
+    res = []
+    for what, args in steps:
+        t0 = time.time()
+        try:
+            p = subprocess.run(base + args + [os.path.join(SPEC, module + ".tla")], cwd=scratch(), stdout=subprocess.PIPE,
+                               stderr=subprocess.STDOUT, text=True, timeout=1800)
+        except subprocess.TimeoutExpired:
+            raise ToolError("Apalache timeout on %s (%s)" % (module, what))
+        if "EXITCODE: OK" not in p.stdout:
+            log(p.stdout[-3000:])
+            raise ToolError("Apalache: %s does not hold for %s" % (what, module))
+        res.append(dict(obligation=what, seconds=round(time.time() - t0, 1)))
+    shutil.rmtree(out_dir, ignore_errors=True)
+    return dict(tool="apalache-mc 0.58", module=module, obligations=res)
+
+
 def check_C13(tier, seed):
     """one process at a time: TLC-generated orderings forced on real processes"""
     v = Verdict("C13")
@@ -1204,6 +1238,7 @@ def check_C13(tier, seed):
     live = tlc_mc("OpenLock", "MC_OpenLock_live.cfg", timeout=600, workers=6)
     if not live["ok"]:
         raise ToolError("OpenLock violates Waits: %s" % live["violated"])
+    ind = apalache_inductive("OpenLock_Ind", "IndInv", "Exclusive")
     build_harness()
     plans = [({1, 2}, False, 3), ({1, 2}, True, 3), ({1, 2, 3}, False, 2 if tier == "quick" else 3),
              ({1, 2, 3}, True, 2 if tier == "quick" else 3)]
@@ -1265,12 +1300,15 @@ def check_C13(tier, seed):
                traces_validated_against_impl=tot["runs"], evaluations=tot["runs"], distinct_nontrivial=tot["orderings"],
                rule="MC: OpenLock.tla (open-or-create, lock, initialise if empty, map, commit a marker, close) for 3 processes, file "
                     "present or absent: Exclusive, SeesAll, NoFailure, NothingLost, and Waits under weak fairness; the pinned order "
-                    "(create and initialise before locking) violates NoFailure (vacuity guard). spec->impl: every ordering with at "
+                    "(create and initialise before locking) violates NoFailure (vacuity guard). Exclusive additionally without a "
+                    "depth bound: Apalache discharges Init => IndInv, IndInv /\\ Next => IndInv', IndInv => Exclusive "
+                    "(OpenLock_Ind.tla: a process is between lock_exclusive() and close exactly if it is the lock holder). spec->impl: every ordering with at "
                     "most k preemptions (distinct_nontrivial) is forced on real processes gated at the open / init / lock hook "
                     "points; overlap is observed by effect: monotonic-clock intervals [open returned, about to close] must be "
                     "disjoint, a process must find the markers of every process that closed before it got in, nobody may fail or "
                     "hang; plus ungated runs with random start offsets and hold times.",
-               samples=samples, model=dict(safety=mcs, pinned_violates="NoFailure", live=live["states"]), plans=tot["plans"],
+               samples=samples, model=dict(safety=mcs, pinned_violates="NoFailure", live=live["states"], inductive=ind),
+               plans=tot["plans"],
                exhaustive=False)
     return v.finish(tier, seed, "model_checking", cov, [
         "TLC; OpenLock.tla transcribes OpenOptions::open / init_file / DBInner::open at the hook points",
